@@ -2,23 +2,13 @@ package main
 
 import (
 	"fmt"
-	"strings"
+	"os"
 )
 
 func init() {
 	cmds["probe"] = func(args []string) int {
-		for _, s := range miniSamples() {
-			sch, err, p := newSchema(s.Schema)
-			if err != nil || p != "" {
-				fmt.Println(s.Name, "SCHEMA ERR", err, p)
-				continue
-			}
-			o := runTranscript(sch, strings.NewReader(string(s.Input)), RunOpts{MaxReads: 50})
-			fmt.Println(s.Name, o.NewTrErr, o.Panic)
-			for _, r := range o.Results {
-				fmt.Printf("   %s %s %s\n", r.Class, r.Out, r.Err)
-			}
-		}
+		r, err := wholeDocSelect(os.Args[2], os.Args[3])
+		fmt.Println(r, err)
 		return 0
 	}
 }
